@@ -16,6 +16,13 @@ For every flow
   * an oracle written from the property text (no model): the flow completes for every combination both halves
     advertise; the artefacts honour the configuration (algorithms, token formats, delivery mode, redirect URI);
     client, subject, scope, nonce and expiry agree between ALL views, pairwise.
+  * requested scope vs granted scope: the flows also ask for scope values the provider does not know, for values the
+    operator has not put into the client's allowed_scopes (or the client record has no allowed_scopes at all), and
+    refresh with a narrower (or re-widened) scope.  The oracle computes the granted scope on its own (requested &
+    advertised by the provider & allowed for the client; for a refresh: the scope the refresh request states) and
+    every scope statement it can read - provider grant, the access token's record, authorization response, token /
+    refresh response, relying-party state, JWT access-token claim, introspection - must be exactly that; the model
+    computes it from the regenerated op_scopes (`chk_grant`, `chk_refresh_scoped`).
 """
 import base64
 import json
@@ -33,7 +40,10 @@ RULE = ("one case = one full RP<->OP flow (discovery, static registration, autho
         "response_mode x token-endpoint auth method x opaque/JWT access token x opaque/JWT refresh token x ID Token "
         "signing alg x ID Token encryption alg/enc x userinfo signing alg x userinfo encryption alg/enc x request "
         "transport x PKCE method, with per-flow random user, scope set, claims request, clock latency, secret "
-        "length, RP response-type configuration.  quick: (1) the limit matrix - every cell class in which exactly one "
+        "length, RP response-type configuration, and the requested-vs-granted dimension: {every requested scope granted, "
+        "scope values unknown to the provider, values outside the client's allowed_scopes, both, client record without "
+        "allowed_scopes} x refresh {as recorded, narrowed, narrowed then restated, narrowed twice}, enumerated for every "
+        "response type (scope matrix) and a dimension of the pairwise array.  quick: (1) the limit matrix - every cell class in which exactly one "
         "named limit of the model applies, enumerated (single-fault matrix), plus negotiation-fallback cells; (2) a "
         "pairwise covering array (greedy, seeded) of the limit-free sub-space over algorithm FAMILIES with the "
         "concrete algorithm drawn round-robin so that every individual value of every dimension occurs; thorough: "
@@ -43,9 +53,14 @@ RULE = ("one case = one full RP<->OP flow (discovery, static registration, autho
 ASSUMPTIONS = [
     "real cryptographic interoperability of every algorithm pair is exercised on the real libraries, not proved: "
     "the model only decides whether a key of the right family is where the code looks for it (partial)",
-    "C12_views_model: sub_of (user, client) and filter_scopes (client, requested) are arbitrary functions of the "
-    "environment; that every endpoint reports exactly them is C18 (subject) and C05 (scope views); the nonce is "
-    "returned unchanged and bound to the state (C08/C09); here that is checked on every flow by the oracle",
+    "C12_views_model: sub_of (user, client) is an arbitrary function of the environment (C18); the granted scope is "
+    "filter_scopes of (regenerated provider scopes, the client's allowed_scopes, requested scope) - "
+    "C12_granted_scope, C12_scope_views_granted - tied to the code by chk_grant / chk_refresh_scoped on every flow; "
+    "the nonce is returned unchanged and bound to the state (C08/C09); checked on every flow by the oracle",
+    "requested vs granted: deny_unknown_scopes stays at the provider's default (off; regenerated "
+    "op_deny_unknown_scopes); the operator's allowed_scopes contain only scope values the provider knows and always "
+    "openid; a narrowed refresh keeps openid and offline_access; two refresh rounds per flow (the scope a refresh "
+    "token 'stands for' is the originally granted scope in both)",
     "validated configuration (harness/rp_op_c12.py): provider states response_types_supported / scopes_supported "
     "explicitly; key jars hold RSA, EC P-256/384/521/secp256k1 and OKP keys with 'alg' annotations that work "
     "around cryptojwt 1.11 pick_key (ES512 -> P-521, Ed448 first); the PAR add-on authenticates with the "
@@ -56,6 +71,14 @@ ASSUMPTIONS = [
 MODES = [None, "query", "fragment", "form_post"]
 TRANSPORTS = ["plain", "request", "request_uri", "par"]
 SCOPES = ["profile", "email", "address", "phone", "offline_access"]
+# the six scope values the validated configuration makes the provider know / advertise and (unless a flow says
+# otherwise) allows the client
+PROVIDER_SCOPES = ["openid", "profile", "email", "address", "phone", "offline_access"]
+# values the provider does not know (a different case is a different scope value)
+UNKNOWN_SCOPES = ["calendar", "urn:c12:read", "Email", "profile.write", "offline"]
+SCOPE_KINDS = ["full", "unknown", "not_allowed", "both", "unset"]
+# per refresh round: "-" nothing asked, "n" narrower than granted, "nn" narrower still, "g" the granted scope restated
+REFRESH_PATTERNS = [("n", "-"), ("-", "n"), ("n", "g"), ("n", "nn")]
 USERS = ["diana", "babs", "upper"]
 CLAIMS = [None,
           {"id_token": {"email": {"essential": True}}},
@@ -196,12 +219,14 @@ def run_job(job):
     cell = job["cell"]
     clock = srv.Clock(NOW).install()
     rec = {"cell": cell, "scope": job["scope"], "claims": job["claims"], "user": job["user"],
-           "latency": job["latency"], "kind": job.get("kind", "")}
+           "latency": job["latency"], "kind": job.get("kind", ""), "allowed": job.get("allowed"),
+           "refresh_scopes": job.get("refresh_scopes")}
     t0 = time.time()
     try:
         try:
-            pair = B.Pair(cell, clock=clock, latency=job["latency"])
-            obs = B.run_flow(pair, job["scope"], claims=job["claims"], user=job["user"])
+            pair = B.Pair(cell, clock=clock, latency=job["latency"], allowed_scopes=job.get("allowed"))
+            obs = B.run_flow(pair, job["scope"], claims=job["claims"], user=job["user"],
+                             refresh_scopes=job.get("refresh_scopes"))
         except B.FlowFailure as f:
             rec["outcome"] = {"where": f.where, "stage": f.stage, "detail": f.detail[:500]}
             return rec
@@ -210,6 +235,9 @@ def run_job(job):
             return rec
         rec["outcome"] = {"where": "ok", "stage": obs["stages"][-1], "detail": ""}
         rec["stages"] = obs["stages"]
+        rec["advertised_scopes"] = obs.get("advertised_scopes")
+        rec["op_requested"] = scope_list((obs.get("op_grant") or {}).get("requested"))
+        rec["rp_requested"] = scope_list(obs.get("rp_scope"))
         fin = obs["finalize"]
         st = obs["rp_state"]
         has_token = fin.get("token") is not None
@@ -332,6 +360,8 @@ def run_job(job):
                            "at_from": "token" if new_at else None, "idt_from": "token" if new_idt else None,
                            "session": sess2, "views": v2, "now_op": n_op, "now_rp": n_rp,
                            "rp_holds_new_token": st2.get("access_token") == new_at,
+                           "asked_scope": scope_list(rd.get("asked_scope")),
+                           "request_scope": scope_list(rd.get("request_scope")),
                            "introspection_active": (ir2 or {}).get("active"),
                            "access_token_shape": k4, "userinfo_error": rd.get("userinfo_error"),
                            "refresh_token_shape": jose_shape(tr.get("refresh_token"))[0] if tr.get("refresh_token") else None})
@@ -403,6 +433,29 @@ def coq_views_case(rec):
         SRC[rec["at_from"]], SRC[rec["idt_from"]], coq_bool(rec["cell"]["at_jwt"]), sess, coq_z(rec["now_op"]),
         coq_z(rec["now_rp"]), coq_view(ops), vo("token_response"), vo("introspection"), vo("userinfo"), vo("id_token"),
         coq_view(vs["rp"]), vo("jwt_access_token"))
+
+
+def coq_scopes(l):
+    return coq_list([coq_str(x) for x in l], "pystr")
+
+
+def coq_scopes_opt(l):
+    return coq_opt(l, coq_scopes, "(list pystr)")
+
+
+def token_level(rec):
+    """the same record with the scope of the ACCESS TOKEN's own entry in the provider's session database in the place
+    of the grant's scope (they are the same list unless a refresh was made for another scope)"""
+    s = rec["session"]
+    return dict(rec, session=dict(s, scope=s["at_scope"] if s.get("at_scope") is not None else s["scope"]))
+
+
+def coq_grant_case(rec):
+    """(allowed_scopes of the client record, requested scope, scope statements outside the views, the views)"""
+    al = allowed_for_client(rec)
+    extra = [v for v in ((rec["views"].get("delivered") or {}).get("scope"), rec["session"].get("at_scope")) if v is not None]
+    return "(%s, %s, %s, %s)" % (coq_scopes_opt(sorted(al) if al is not None else None), coq_scopes(sorted(set(rec["scope"]))),
+                                 coq_list([coq_scopes(v) for v in extra], "(list pystr)"), coq_views_case(rec))
 
 
 def views_case_ok(rec):
@@ -486,6 +539,11 @@ def compare_views(ctx, rec, tag):
                         "at_exp": s["at_exp"], "idt_exp": s["idt_exp_recorded"]}
     if s.get("at_scope") is not None:
         vs["op_access_token"] = {"scope": s["at_scope"]}
+    if rec.get("token_scope_differs_from_grant"):
+        # a refresh for a scope other than the grant's (only in flows whose refresh requests restate the scope): the
+        # grant keeps the scope of the authorization (checked by refresh_oracle); the provider's record of THIS
+        # token set is the access token's own record (op_access_token)
+        vs["op_session"] = dict(vs["op_session"], scope=None)
     skew = (rec["now_rp"] - rec["now_op"]) if rec.get("now_op") is not None else 0
     names = sorted(vs)
     for f in ("client", "sub", "scope", "nonce", "at_exp", "idt_exp"):
@@ -508,12 +566,97 @@ def compare_views(ctx, rec, tag):
                         f, tag, a, vs[a].get(f), b, vs[b].get(f), json.dumps(cellname, default=str), rec["scope"]), rec)
 
 
+def allowed_for_client(rec):
+    """what the operator allows the client of this flow (None: the client record carries no allowed_scopes)"""
+    al = rec.get("allowed")
+    if al == "unset":
+        return None
+    return list(PROVIDER_SCOPES) if al is None else list(al)
+
+
+def expected_granted(rec):
+    """the granted scope, from the property text and the configuration alone: requested & what the provider
+    advertises & what the operator allows the client"""
+    adv = rec.get("advertised_scopes")
+    adv = set(PROVIDER_SCOPES) if adv is None else set(adv)
+    al = allowed_for_client(rec)
+    return sorted(x for x in set(rec["scope"]) if x in adv and (al is None or x in al))
+
+
+def scope_statements(rec):
+    """every statement about the scope of one token set the driver could read: (where, sorted list)"""
+    out = []
+    s = rec["session"]
+    if not rec.get("token_scope_differs_from_grant"):
+        out.append(("op_session", s.get("scope")))
+    out.append(("op_access_token", s.get("at_scope")))
+    for n in ("delivered", "token_response", "rp", "introspection", "jwt_access_token"):
+        out.append((n, (rec["views"].get(n) or {}).get("scope")))
+    return [(n, v) for n, v in out if v is not None]
+
+
+def scope_oracle(ctx, rec):
+    """requested vs granted: the provider received the scope the relying party was asked to request; every scope
+    statement of the flow is exactly the independently computed granted scope (hence within the requested one)"""
+    c = rec["cell"]
+    want = expected_granted(rec)
+    adv = rec.get("advertised_scopes")
+    if adv is None or sorted(adv) != sorted(PROVIDER_SCOPES):
+        ctx.violation("scopes-advertised", "the provider advertises scopes_supported=%r, configured %r" % (adv, PROVIDER_SCOPES), rec)
+    for who in ("rp_requested", "op_requested"):
+        if rec.get(who) is not None and rec[who] != sorted(rec["scope"]):
+            ctx.violation("scope-request-altered", "requested scope %r, %s has %r" % (sorted(rec["scope"]), who, rec[who]), rec)
+    for n, v in scope_statements(rec):
+        if v != want:
+            ctx.violation("views:scope-granted", "%s states scope %r; requested %r, allowed for the client %r, advertised %r: "
+                          "granted is %r (cell %s)" % (n, v, sorted(rec["scope"]), allowed_for_client(rec), adv, want,
+                                                      json.dumps(c, default=str)), rec)
+    if rec["has_token"]:
+        for n in ("token_response", "introspection") + (("jwt_access_token",) if c["at_jwt"] else ()):
+            if (rec["views"].get(n) or {}).get("scope") is None:
+                ctx.violation("scope-view-missing", "%s states no scope" % n, rec)
+    ctx.count("scope:granted-%s-requested" % ("equals" if want == sorted(set(rec["scope"])) else "less-than"))
+
+
+def refresh_scope_oracle(ctx, rec):
+    """refresh rounds: the refresh request states the scope the caller asked for, else the scope the relying party has
+    on record; the scope of the round is the stated one (within the granted scope), and every scope statement about
+    the refreshed tokens is exactly it; the grant keeps the granted scope.  Marks rounds whose scope is not the grant's."""
+    granted = expected_granted(rec)
+    on_record = (rec["views"].get("rp") or {}).get("scope")
+    for rr in rec.get("refresh_rounds") or []:
+        tag = ":refresh%d" % rr["round"]
+        stated, asked = rr.get("request_scope"), rr.get("asked_scope")
+        if asked is not None and stated != asked:
+            ctx.violation("refresh-request-scope" + tag, "the caller asked for scope %r, the refresh request states %r" % (asked, stated), rec)
+        if asked is None and stated is not None and stated != on_record:
+            ctx.violation("refresh-request-scope" + tag, "nothing asked: the refresh request states scope %r, the relying party "
+                          "had %r on record" % (stated, on_record), rec)
+        want = stated if stated is not None else granted
+        if not set(want) <= set(granted):
+            ctx.violation("scope-escalation" + tag, "refresh for scope %r completed, granted was %r" % (want, granted), rec)
+        rr["token_scope_differs_from_grant"] = bool(rec.get("refresh_scopes")) and want != granted
+        if not rr["has_token"]:
+            continue
+        if rr["session"].get("scope") != granted:
+            ctx.violation("views:scope-granted" + tag, "the grant holds scope %r after the refresh, granted was %r" % (
+                rr["session"].get("scope"), granted), rec)
+        for n, v in scope_statements(dict(rr, token_scope_differs_from_grant=True)):
+            if v != want:
+                ctx.violation("views:scope-granted" + tag, "%s states scope %r after a refresh for %r (granted %r, requested %r)" % (
+                    n, v, want, granted, sorted(rec["scope"])), rec)
+        ctx.count("scope:refresh-%s" % ("granted" if want == granted else "narrowed"))
+        on_record = (rr["views"].get("rp") or {}).get("scope")
+
+
 def refresh_oracle(ctx, rec):
     """after every refresh: the refreshed access token is the one the RP holds, it is active, of the configured format,
     its views agree, and client / subject / scope / nonce are still those of the original grant"""
     c = rec["cell"]
     s0 = rec["session"]
-    if "offline_access" in rec["scope"] and expects(c["rt"])[2] and len(rec.get("refresh_rounds") or []) < 2:
+    refresh_scope_oracle(ctx, rec)
+    # (offline_access GRANTED: for every flow that is granted all it asks for this is `"offline_access" in rec["scope"]`)
+    if "offline_access" in expected_granted(rec) and expects(c["rt"])[2] and len(rec.get("refresh_rounds") or []) < 2:
         ctx.violation("refresh-rounds", "offline_access granted through the token endpoint but only %d refresh round(s) "
                       "could be made" % len(rec.get("refresh_rounds") or []), rec)
     for rr in rec.get("refresh_rounds") or []:
@@ -634,12 +777,13 @@ def oracle(ctx, rec, T):
         if rec.get("refresh_token_shape") is not None and (rec["refresh_token_shape"] == "jws") != bool(c["rf_jwt"]):
             ctx.violation("refresh-token-format", "refresh token is %s, provider configured for %s" % (
                 rec["refresh_token_shape"], "JWT" if c["rf_jwt"] else "opaque"), rec)
-        if "offline_access" in rec["scope"] and redeems and rec.get("refresh_token_shape") is None:
+        if "offline_access" in expected_granted(rec) and redeems and rec.get("refresh_token_shape") is None:
             ctx.violation("no-refresh-token", "offline_access granted but no refresh token in the token response", rec)
         if rec.get("introspection_active") is not True:
             ctx.violation("introspection-inactive", "the access token just issued is not reported active", rec)
     # ---- views agree, pairwise, field by field
     compare_views(ctx, rec, "")
+    scope_oracle(ctx, rec)
     s = rec["session"]
     # required views are present
     need = ["rp"] + (["id_token"] if want_idt else []) + (["token_response", "userinfo", "introspection"] if rec["has_token"] else [])
@@ -716,7 +860,7 @@ def pairwise_rows(rng, T, want_limit_free=True, max_rows=400):
         "rt": T["rt"], "rm": [None] + T["rm"], "auth": T["auth"], "at_jwt": [False, True], "rf_jwt": [False, True],
         "idt_fam": sigf, "idt_enc_fam": [None] + encf, "ui_fam": [None] + uif, "ui_enc_fam": [None] + encf,
         "transport": TRANSPORTS, "pkce": [False, True], "offline": [False, True], "secret_len": [32, 56],
-        "rp_all_rts": [False, True], "claims": [False, True],
+        "rp_all_rts": [False, True], "claims": [False, True], "scope_kind": ["full", "unknown", "not_allowed"],
     }
     names = sorted(dims)
 
@@ -791,19 +935,95 @@ def concretise(rng, rows, T):
                       ui_enc=None if r["ui_enc_fam"] is None else (ue.pick(r["ui_enc_fam"]), uenc()),
                       transport=r["transport"], pkce=pk() if r["pkce"] else None, secret_len=r["secret_len"],
                       rp_all_rts=r["rp_all_rts"])
-        jobs.append(make_job(rng, c, offline=r["offline"], kind="pairwise", claims=r["claims"]))
+        pat = rng.choice(REFRESH_PATTERNS) if (r["offline"] and expects(r["rt"])[2] and rng.random() < 0.5) else None
+        jobs.append(make_job(rng, c, offline=r["offline"], kind="pairwise", claims=r["claims"], scope_kind=r["scope_kind"],
+                             pattern=pat))
     return jobs
 
 
-def make_job(rng, cell, offline=None, kind="", claims=None):
+def make_job(rng, cell, offline=None, kind="", claims=None, scope_kind="full", pattern=None):
     extra = [s for s in SCOPES if s != "offline_access" and rng.random() < 0.4]
     if offline is None:
         offline = rng.random() < 0.3
     if claims is None:
         claims = rng.random() < 0.5 and cell["transport"] != "par"
     scope = ["openid"] + extra + (["offline_access"] if offline else [])
-    return {"cell": cell, "scope": scope, "claims": rng.choice(CLAIMS[1:]) if claims else None, "user": rng.choice(USERS),
-            "latency": rng.choice([0, 0, 2, 7]), "kind": kind}
+    job = {"cell": cell, "scope": scope, "claims": rng.choice(CLAIMS[1:]) if claims else None, "user": rng.choice(USERS),
+           "latency": rng.choice([0, 0, 2, 7]), "kind": kind}
+    if scope_kind != "full" or pattern is not None:
+        vary_scope(rng, job, scope_kind, pattern)
+    return job
+
+
+def vary_scope(rng, job, scope_kind, pattern):
+    """the requested-vs-granted dimension (generation only; the oracle recomputes the granted scope on its own).
+    scope_kind: unknown - the request also names 1-2 values the provider does not know; not_allowed - the operator
+    allows the client a strict subset of the provider's scopes and the request names 1-2 values outside it;
+    both; unset - the client record has no allowed_scopes and the request names unknown values.
+    pattern: what the two refresh rounds ask for (REFRESH_PATTERNS); applied when offline_access ends up granted."""
+    named = [s for s in SCOPES if s != "offline_access"]
+    scope = list(job["scope"])
+    allowed = None
+    if scope_kind in ("not_allowed", "both"):
+        denied = rng.sample(named, rng.choice([1, 1, 2]))
+        allowed = [s for s in PROVIDER_SCOPES if s not in denied]
+        if "offline_access" in scope and pattern is None and rng.random() < 0.3:
+            allowed.remove("offline_access")       # asked for, not allowed: no refresh token
+        scope += [s for s in denied if s not in scope]
+    if scope_kind in ("unknown", "both", "unset"):
+        scope += rng.sample(UNKNOWN_SCOPES, rng.choice([1, 1, 2]))
+    if scope_kind == "unset":
+        allowed = "unset"
+    if pattern is not None:
+        # something to narrow: at least two granted values besides openid / offline_access
+        ok = [s for s in named if allowed in (None, "unset") or s in allowed]
+        for s in ok:
+            if len([x for x in scope if x in ok]) >= 2:
+                break
+            if s not in scope:
+                scope.append(s)
+    if scope_kind != "full":
+        rng.shuffle(scope)
+    job["scope"] = scope
+    if allowed is not None:
+        job["allowed"] = allowed
+    if pattern is not None and "offline_access" in scope:
+        granted = [s for s in scope if s in PROVIDER_SCOPES and (allowed in (None, "unset") or s in allowed)]
+        keep = [s for s in granted if s in ("openid", "offline_access")]
+        rest = [s for s in granted if s not in keep]
+        rng.shuffle(rest)
+        n1 = keep + rest[:max(1, len(rest) - 1)] if len(rest) > 1 else keep
+        n2 = keep + rest[:max(0, len(rest) - 2)]
+        words = {"-": None, "n": n1, "nn": n2, "g": granted}
+        job["refresh_scopes"] = [words[w] for w in pattern]
+
+
+def scope_matrix(rng, T):
+    """requested vs granted, enumerated: every response type x {unknown, not allowed, both, no allowed_scopes in the
+    client record}, opaque / JWT access tokens and the four transports in turn; then every refresh pattern x
+    {code, code id_token} x opaque / JWT access token over the scope kinds in turn"""
+    jobs = []
+    kinds = [k for k in SCOPE_KINDS if k != "full"]
+    i = 0
+    for rt in T["rt"]:
+        for k in kinds:
+            tr = TRANSPORTS[i % len(TRANSPORTS)]
+            cell = base_cell(rt=rt, at_jwt=(i % 2 == 1), transport=tr, rp_all_rts=(i % 3 == 0),
+                             auth=T["auth"][i % len(T["auth"])] if not T["auth"][i % len(T["auth"])].startswith("bearer")
+                             else "client_secret_post")
+            jobs.append(make_job(rng, cell, offline=(i % 4 == 2), kind="scope:" + k, claims=False if tr == "par" else None,
+                                 scope_kind=k))
+            i += 1
+    for rt in ("code", "code id_token"):
+        for at in (False, True):
+            for pat in REFRESH_PATTERNS:
+                k = SCOPE_KINDS[i % len(SCOPE_KINDS)]
+                cell = base_cell(rt=rt, at_jwt=at, rf_jwt=(i % 2 == 0), auth=rng.choice(["client_secret_basic", "client_secret_post",
+                                                                                        "private_key_jwt"]))
+                jobs.append(make_job(rng, cell, offline=True, kind="scope-refresh:%s:%s" % (k, "".join(pat)), scope_kind=k,
+                                     pattern=pat))
+                i += 1
+    return jobs
 
 
 def limit_matrix(rng, T):
@@ -964,13 +1184,14 @@ def prepare_keys():
 
 
 def evaluate(ctx, recs, T):
-    flow_cases, view_cases, refresh_cases = [], [], []
+    flow_cases, view_cases, refresh_cases, grant_cases, scoped_cases = [], [], [], [], []
     for rec in recs:
         c = rec["cell"]
         out = rec["outcome"]
         small = {k: v for k, v in rec.items() if k not in ("views", "session", "rp_callbacks", "rp_use")}
         ctx.case_seen({"cell": c, "scope": rec["scope"], "claims": rec["claims"], "user": rec["user"],
-                       "latency": rec["latency"], "outcome": out["where"]}, nontrivial=out["where"] not in ("rp_init", "harness"))
+                       "latency": rec["latency"], "outcome": out["where"], "allowed": rec.get("allowed"),
+                       "refresh_scopes": rec.get("refresh_scopes")}, nontrivial=out["where"] not in ("rp_init", "harness"))
         ctx.count("kind:" + rec["kind"].split(":")[0])
         ctx.count("outcome:" + out["where"])
         ctx.count("rt:" + c["rt"])
@@ -991,13 +1212,35 @@ def evaluate(ctx, recs, T):
             if views_case_ok(rec):
                 view_cases.append((coq_views_case(rec), {"cell": c, "scope": rec["scope"], "session": rec["session"],
                                                          "views": rec["views"], "now_op": rec["now_op"], "now_rp": rec["now_rp"]}))
+                grant_cases.append((coq_grant_case(rec), {"cell": c, "scope": rec["scope"], "allowed": rec.get("allowed"),
+                                                          "session": rec["session"], "views": rec["views"],
+                                                          "kind": rec["kind"], "claims": rec["claims"], "user": rec["user"],
+                                                          "latency": rec["latency"], "refresh_scopes": rec.get("refresh_scopes")}))
                 prev, now0 = rec["session"], rec["now_op"]
+                prev_tok = token_level(rec)["session"]
+                al = allowed_for_client(rec)
                 for rr in rec.get("refresh_rounds") or []:
                     if not (views_case_ok(rr) and rr.get("now_op") is not None and prev.get("idt_exp") is not None):
                         ctx.mismatch("refresh round without a usable provider session record", small, impl=rr.get("session"))
                         break
                     # lifetimes as the FIRST token response showed them (expiry minus the provider clock then)
                     lives = (rr["now_op"], rec["session"]["at_exp"] - now0, rec["session"]["idt_exp"] - now0)
+                    info = {"cell": c, "scope": rec["scope"], "allowed": rec.get("allowed"), "round": rr["round"],
+                            "refresh_scopes": rec.get("refresh_scopes"), "request_scope": rr.get("request_scope"),
+                            "before": prev_tok, "session": rr["session"], "views": rr["views"], "now_op": rr["now_op"],
+                            "now_rp": rr["now_rp"], "kind": rec["kind"], "claims": rec["claims"], "user": rec["user"],
+                            "latency": rec["latency"]}
+                    rr_tok = token_level(rr)
+                    scoped_cases.append(("(%s, %s, %s, %s, (%s, %s, %s), %s, %s)" % (
+                        coq_scopes_opt(sorted(al) if al is not None else None), coq_scopes(sorted(set(rec["scope"]))),
+                        coq_scopes(rr["session"]["scope"]), coq_session(prev_tok), coq_z(lives[0]), coq_z(lives[1]),
+                        coq_z(lives[2]), coq_scopes_opt(rr.get("request_scope")), coq_views_case(rr_tok)), info))
+                    prev_tok = rr_tok["session"]
+                    if rec.get("refresh_scopes"):
+                        # a flow whose refresh requests restate the scope: the records of the refreshed tokens are not
+                        # the grant's (chk_refresh_scoped above); chk_refresh is for refreshes that keep the grant's scope
+                        prev = rr["session"]
+                        continue
                     refresh_cases.append(("(%s, (%s, %s, %s), %s)" % (coq_session(prev), coq_z(lives[0]), coq_z(lives[1]),
                                                                        coq_z(lives[2]), coq_views_case(rr)),
                                           {"cell": c, "scope": rec["scope"], "round": rr["round"], "before": prev,
@@ -1012,7 +1255,12 @@ def evaluate(ctx, recs, T):
     ctx.coq_check_cases(imports, "views_case", "chk_views", view_cases, shard=150, label="views", diag="diag_views")
     ctx.coq_check_cases(imports, "session * (Z * Z * Z) * views_case", "chk_refresh", refresh_cases, shard=150,
                         label="refresh", diag="diag_refresh")
-    ctx.count("refresh-rounds", len(refresh_cases))
+    ctx.coq_check_cases(imports, "option (list pystr) * list pystr * list (list pystr) * views_case", "chk_grant",
+                        grant_cases, shard=150, label="grant", diag="diag_grant")
+    ctx.coq_check_cases(imports, "option (list pystr) * list pystr * list pystr * session * (Z * Z * Z) * option (list pystr) "
+                        "* views_case", "chk_refresh_scoped", scoped_cases, shard=150, label="refresh_scoped",
+                        diag="diag_refresh_scoped")
+    ctx.count("refresh-rounds", len(scoped_cases))
 
 
 def run(ctx):
@@ -1020,6 +1268,7 @@ def run(ctx):
     T = tables()
     prepare_keys()
     jobs = fixed_witnesses() + response_type_coverage(rng, T) + refresh_cells(rng, T) + limit_matrix(rng, T)
+    jobs += scope_matrix(rng, T)
     rows = pairwise_rows(rng, T)
     jobs += concretise(rng, rows, T)
     if not ctx.quick:
@@ -1062,7 +1311,8 @@ def replay(ctx, rp):
         else:
             return run(ctx)
     job = {"cell": case["cell"], "scope": case.get("scope") or ["openid"], "claims": case.get("claims"),
-           "user": case.get("user") or "diana", "latency": case.get("latency") or 0, "kind": case.get("kind", "replay")}
+           "user": case.get("user") or "diana", "latency": case.get("latency") or 0, "kind": case.get("kind", "replay"),
+           "allowed": case.get("allowed"), "refresh_scopes": case.get("refresh_scopes")}
     recs = [run_job(job)]
     print("replayed flow: outcome %s" % json.dumps(recs[0]["outcome"]))
     evaluate(ctx, recs, T)
